@@ -456,6 +456,14 @@ pub fn run_parent(p: &dyn Property, tier: Tier) -> RunResult {
     for kf in known.open_for(id) {
         let wpath = root.join(&kf.witness);
         let res = replay_in_child(&exe, id, &wpath);
+        // an abort observed in the replay child gets the property's abort key
+        let res = match res {
+            ReplayOutcome::Fail(key, d) if key.starts_with("abort.") => {
+                let case = read_json(&wpath).map(|doc| if doc.get("case").is_some() { doc["case"].clone() } else { doc }).unwrap_or(Json::Null);
+                ReplayOutcome::Fail(p.abort_key(&case, key.trim_start_matches("abort.")), d)
+            }
+            other => other,
+        };
         match res {
             ReplayOutcome::Fail(key, _d) if key == kf.key => {
                 known_lines.push(format!("KNOWN-FINDING: property={} key={} {}", id, kf.key, kf.description));
@@ -757,6 +765,16 @@ pub fn skip_known(property: &str, key: &str) -> bool {
     K.get_or_init(known::load).is_open(property, key)
 }
 
+pub fn signal_name(sig: i32) -> String {
+    match sig {
+        libc::SIGXCPU => "cpu-limit".to_string(),
+        libc::SIGKILL => "sigkill".to_string(),
+        libc::SIGSEGV => "sigsegv".to_string(),
+        libc::SIGABRT => "sigabrt".to_string(),
+        s => format!("signal{}", s),
+    }
+}
+
 pub enum ReplayOutcome {
     Pass,
     Fail(String, String),
@@ -772,7 +790,7 @@ pub fn replay_in_child(exe: &Path, id: &str, file: &Path) -> ReplayOutcome {
             use std::os::unix::process::ExitStatusExt;
             let so = String::from_utf8_lossy(&o.stdout).to_string();
             if let Some(sig) = o.status.signal() {
-                return ReplayOutcome::Fail(format!("abort.signal{}", sig), "killed by signal".into());
+                return ReplayOutcome::Fail(format!("abort.{}", signal_name(sig)), "killed by signal".into());
             }
             for line in so.lines() {
                 if let Some(rest) = line.strip_prefix("REPLAY-FAIL ") {
